@@ -21,6 +21,7 @@ import (
 // ---- Loot (C07) ----
 
 type lootState struct {
+	old  map[string]string // files of earlier runs' loot trees (path -> size and time), as they were when the run ended
 	w    *world.World
 	ids  map[string]uint32
 	name map[string]string // NameID -> symbol
@@ -53,11 +54,21 @@ func (s *lootState) project() map[string]any {
 			return nil
 		}
 		parts := strings.Split(rel, string(filepath.Separator))
-		// benign, server-owned locations
-		if rel == "data" || rel == "data/loot" || strings.HasPrefix(rel, "data/ts.db") || rel == "data/loot/agents" || rel == "data/loot/listener" || strings.HasPrefix(rel, "data/loot/listener/") {
+		lootName := filepath.Base(s.w.Loot) // the current run's loot tree: data/loot, data/loot-run1, ...
+		// an earlier run's tree: nothing in it may change any more
+		if len(parts) >= 2 && parts[0] == "data" && strings.HasPrefix(parts[1], "loot") && parts[1] != lootName {
+			if !d.IsDir() {
+				if fi, err := d.Info(); err == nil && s.old[rel] != fmt.Sprintf("%d/%d", fi.Size(), fi.ModTime().UnixNano()) {
+					other = append(other, "changed-after-its-run:"+rel)
+				}
+			}
 			return nil
 		}
-		if len(parts) >= 4 && parts[0] == "data" && parts[1] == "loot" && parts[2] == "agents" {
+		// benign, server-owned locations
+		if rel == "data" || rel == "data/"+lootName || strings.HasPrefix(rel, "data/ts.db") || rel == "data/"+lootName+"/agents" || rel == "data/"+lootName+"/listener" || strings.HasPrefix(rel, "data/"+lootName+"/listener/") {
+			return nil
+		}
+		if len(parts) >= 4 && parts[0] == "data" && parts[1] == lootName && parts[2] == "agents" {
 			if sym, ok := s.name[parts[3]]; ok {
 				rest := parts[4:]
 				switch {
@@ -121,6 +132,11 @@ func RunLoot(behs [][]Step, tr *Trace, env Env, sum *Summary) {
 			w, err := world.New(env.Scratch, world.Options{})
 			must(err)
 			defer w.Close()
+			// relative paths the server may come up with must show up in the listing: the process works inside the world's directory
+			if cwd, err := os.Getwd(); err == nil {
+				defer os.Chdir(cwd)
+			}
+			must(os.Chdir(w.Dir))
 			rng := rand.New(rand.NewSource(env.Seed + int64(bi)*1000003))
 			s := &lootState{w: w, ids: map[string]uint32{}, name: map[string]string{}, req: 0xB000, rng: rng}
 			for i, sy := range []string{"a1", "a2"} {
@@ -159,7 +175,7 @@ func RunLoot(behs [][]Step, tr *Trace, env Env, sum *Summary) {
 					if rng.Intn(4) == 0 && len(comps) > 0 && comps[len(comps)-1] != "" {
 						sent += "\x00"
 					}
-					b.I32(2).I32(0).I32(uint32(0x500 + f)).I64(4096).WStr(sent)
+					b.I32(2).I32(0).I32(uint32(0x500 + f)).I64(map[string]uint64{"zero": 0, "short": 2, "ample": 4096}[c]).WStr(sent) // the announced size
 					send(b.B)
 				case "Write":
 					b.I32(2).I32(1).I32(uint32(0x500 + f)).Bytes([]byte("[" + c + "]"))
@@ -167,6 +183,24 @@ func RunLoot(behs [][]Step, tr *Trace, env Env, sum *Summary) {
 				case "Close":
 					b.I32(2).I32(2).I32(uint32(0x500 + f)).I32(0)
 					send(b.B)
+				case "Restart":
+					// what the ending run leaves behind stays as it is
+					s.old = map[string]string{}
+					filepath.WalkDir(w.Dir, func(p string, d fs.DirEntry, err error) error {
+						if err == nil && !d.IsDir() {
+							if fi, e2 := d.Info(); e2 == nil {
+								rel, _ := filepath.Rel(w.Dir, p)
+								s.old[rel] = fmt.Sprintf("%d/%d", fi.Size(), fi.ModTime().UnixNano())
+							}
+						}
+						return nil
+					})
+					if pan, to := guarded(func() { must(w.Restart()) }, 20*time.Second); pan != "" || to {
+						if strings.Contains(pan, "harness-error") {
+							panic(pan)
+						}
+						sum.Incidents = append(sum.Incidents, Incident{Behaviour: bi, Step: si, Kind: map[bool]string{true: "hang", false: "panic"}[to], Site: op, Detail: firstLines(pan, 14)})
+					}
 				case "CraftedFile":
 					ag := w.Agent(id)
 					crafted := map[string]string{"dotdot": "..", "up": "../evil", "dot": ".", "nested": ag.NameID + "/sub", "deep": "x/../../evil3", "abs": w.Dir + "/evilabs"}[c]
